@@ -305,6 +305,38 @@ func runC04(w *World, r *Report) {
 		r.OK("C04.concat-leaves-chunks-alone", fmt.Sprintf("%d functions of the concat closure examined", nf), token.NoPos, "reflect accumulators are fresh")
 	}
 
+	r.Rule("C04.narrowing-agrees", "where Invoke narrows an interface-typed value to a node's concrete input type, the stream paradigms narrow chunk by chunk and the other way round: unpackStreamReader refuses a reader only when neither side is interface-typed (an any-typed handler's output stream is unpacked with a per-chunk check), and the invoke half of WithInputKey checks the keyed value the way inputStreamFilter does (shared with C07)", 2)
+	unpackRefusalChecks(w, r, "C04.narrowing-agrees")
+	inputKeyNarrowingChecked(w, r, "C04.narrowing-agrees")
+
+	r.Rule("C04.any-chunks-by-dynamic-type", "ConcatItems concatenates the chunks of an interface-typed stream by their dynamic type (a retyping call under Kind() == Interface of the element type), the way concatMaps treats the values under a key of a map[string]any: a stream-only node with output `any` feeding an invoke-only node gives what the stream paradigms give", 1)
+	{
+		ci := w.Fn("internal", "ConcatItems")
+		good := false
+		var cands []*ssa.Call
+		instrs(ci, func(in ssa.Instruction) {
+			if c, ok := in.(*ssa.Call); ok {
+				if sc := staticCallee(c); sc != nil && w.inRepo(sc) && w.relPkg(fnPkg(sc).Path()) == "internal" {
+					cands = append(cands, c)
+				}
+			}
+		})
+		for _, c := range cands {
+			if hasGuard(c.Block(), func(g guard) bool {
+				op, x, y, ok := asCmp(g.cond)
+				if !ok || op != token.EQL || !g.pol {
+					return false
+				}
+				kc, ok := x.(*ssa.Call)
+				k, ok2 := y.(*ssa.Const)
+				return ok && ok2 && kc.Call.IsInvoke() && kc.Call.Method.Name() == "Kind" && k.Value != nil && k.Value.String() == "20"
+			}) {
+				good = true
+			}
+		}
+		r.Check(good, "C04.any-chunks-by-dynamic-type", "ConcatItems: interface element types are dispatched dynamically", ci.Pos(), "a retyping helper of package internal is called under typ.Kind() == reflect.Interface", "ConcatItems looks at the static element type only: for []any it finds no concat function and fails with 'cannot concat multiple non-zero value of type interface {}' — Invoke (which must concatenate the stream-only node's output) fails where Stream / Collect / Transform, whose edge converter narrows every chunk to string first, succeed")
+	}
+
 	// ---- role-uniform (generalises in-out-wiring to every struct and function of the module)
 	r.Rule("C04.role-uniform", "within one function, same-role fields (input* / output*, pre* / post*) of one struct are filled from sources of one role; a lone cross-role assignment is a copy within one object", 20)
 	ruleRoleUniform(w, r, "C04.role-uniform", "compose", "schema", "internal", "flow", "callbacks", "components", "utils")
